@@ -156,6 +156,22 @@ func (p *Prog) classify(fn *ssa.Function, fa *ssa.FieldAddr, base ssa.Value) []F
 				}
 			}
 		case *ssa.DebugRef:
+		case *ssa.Phi:
+			// a pointer to the field that flows through a phi: dereferences of the phi are accesses
+			if r.Referrers() != nil {
+				for _, rr := range *r.Referrers() {
+					switch m := rr.(type) {
+					case *ssa.UnOp:
+						if m.Op == token.MUL {
+							out = append(out, FieldAccess{Fn: fn, Instr: m, Addr: fa, Base: base, Kind: Read})
+						}
+					case *ssa.Store:
+						if m.Addr == ssa.Value(r) {
+							out = append(out, FieldAccess{Fn: fn, Instr: m, Addr: fa, Base: base, Kind: Write, Val: m.Val})
+						}
+					}
+				}
+			}
 		case *ssa.FieldAddr, *ssa.IndexAddr:
 			// nested struct/array field: treat sub-accesses as accesses of this field
 			out = append(out, FieldAccess{Fn: fn, Instr: r, Addr: fa, Base: base, Kind: Read})
